@@ -211,33 +211,36 @@ def resetProperties (cfg : Cfg) (r : Reg) (newMacros : Option (Dict Str)) : Reg 
 
 /-! ## `addProfile` (`profiles.py:259-310`) -/
 
+/-- lines 283-297: the macro environment; returns the registry and the macros stored for the profile -/
+def addMacros (cfg : Cfg) (r : Reg) (profile : Str) (macros : Option (Dict Str)) : (Reg × Dict Str) × Option Exc :=
+  if truthy macros then
+    let ms := macros.getD []
+    -- line 285: would a known macro change?
+    if (dkeys ms).any (fun k => (dget r.used k).isSome) then
+      let res := resetProperties cfg r (some ms)
+      ((res.1, ms), res.2)
+    else (({ r with used := dupdate r.used ms }, ms), none)
+  else
+    -- lines 294-297: "might have been set by addProfiles before"
+    ((r, match dget r.raw profile with
+         | some e => e.macros
+         | none => []), none)
+
+/-- lines 300-310: save name and raw definitions, expand with `_usedMacros`, compile, refresh the known names -/
+def addStore (cfg : Cfg) (r1 : Reg) (profile : Str) (properties : Dict PVal) (ms : Dict Str) : Reg × Option Exc :=
+  let r2 : Reg := { r1 with
+    names := if profile ∈ r1.names then r1.names else r1.names ++ [profile],
+    raw := dset r1.raw profile { props := some properties, macros := ms } }
+  match expandDict cfg.fuel r2.used properties with
+  | .error e => (r2, some e)
+  | .ok ex => (updateKnown { r2 with compiled := dset r2.compiled profile (compileDict ex) }, none)
+
 def addProfile (cfg : Cfg) (r : Reg) (profile : Str) (properties : Dict PVal) (macros : Option (Dict Str)) :
     Reg × Option Exc :=
-  -- lines 283-297
-  let step1 : (Reg × Dict Str) × Option Exc :=
-    if truthy macros then
-      let ms := macros.getD []
-      if (dkeys ms).any (fun k => (dget r.used k).isSome) then
-        let res := resetProperties cfg r (some ms)
-        ((res.1, ms), res.2)
-      else (({ r with used := dupdate r.used ms }, ms), none)
-    else
-      ((r, match dget r.raw profile with
-           | some e => e.macros
-           | none => []), none)
-  match step1.2 with
-  | some e => (step1.1.1, some e)
-  | none =>
-    let r1 := step1.1.1
-    let ms := step1.1.2
-    -- lines 300-305
-    let r2 : Reg := { r1 with
-      names := if profile ∈ r1.names then r1.names else r1.names ++ [profile],
-      raw := dset r1.raw profile { props := some properties, macros := ms } }
-    -- lines 307-310
-    match expandDict cfg.fuel r2.used properties with
-    | .error e => (r2, some e)
-    | .ok ex => (updateKnown { r2 with compiled := dset r2.compiled profile (compileDict ex) }, none)
+  let s := addMacros cfg r profile macros
+  match s.2 with
+  | some e => (s.1.1, some e)
+  | none => addStore cfg s.1.1 profile properties s.1.2
 
 /-! ## `addProfiles` (`profiles.py:244-257`) -/
 
